@@ -313,4 +313,7 @@ class SubstratePathParser:
             raise SubstratePathError(f"Invalid path ({path})")
 
         paths = re.findall(SubstratePathConst.RE_PATH, path)
+        # The whole string shall be made of path elements (e.g. no trailing slashes silently dropped)
+        if "".join(paths) != path:
+            raise SubstratePathError(f"Invalid path ({path})")
         return SubstratePath(list(paths))
